@@ -250,6 +250,22 @@ Theorem C11_nil_or_type_error : forall a b,
 Proof. exact nil_or_type_cases. Qed.
 Print Assumptions C11_nil_or_type_error.
 
+(* indexing the concatenation of two arrays: below #a the element of a, from #a on the element of b *)
+Theorem C11_index_of_concat : forall (a b : list value) i,
+  0 <= i < Z.of_nat (List.length a + List.length b) ->
+  Index1 (VArr (a ++ b)) (VInt i) =
+    if i <? Z.of_nat (List.length a) then Index1 (VArr a) (VInt i)
+    else Index1 (VArr b) (VInt (i - Z.of_nat (List.length a))).
+Proof. exact index_concat_arr. Qed.
+Print Assumptions C11_index_of_concat.
+
+(* # is defined exactly on strings and arrays, is never negative, and fails with nil / type error otherwise *)
+Theorem C11_len_defined : forall a,
+  (sliceable a -> exists n, Len a = Ok (VInt n) /\ 0 <= n /\ n = vlen a) /\
+  (~ sliceable a -> Len a = Fail (if is_nil a then ErrNil else ErrType)).
+Proof. exact len_defined. Qed.
+Print Assumptions C11_len_defined.
+
 (* non-vacuity *)
 Example C11_examples :
   Arith DIV (VInt (-7)) (VInt 2) = Ok (VInt (-3)) /\
